@@ -122,7 +122,7 @@ end TimeBounds
 
 example : OrderedOps ratOps := ratOps_ordered
 
-theorem exParams_legal : LegalParams Ex.params := by
+theorem C06_exParams_legal : LegalParams Ex.params := by
   constructor <;> simp only [Ex.params] <;> norm_num
 
 example : Ex.params.safety < 1 := by simp only [Ex.params]; norm_num
@@ -133,7 +133,7 @@ example : ∀ x : ℚ, 1 ≤ x → 1 ≤ ratOps.pow x (1 / Ex.params.order) := f
 example (kind : LUKind) (T : ℚ) (hT : 0 ≤ T) (fuel : Nat) :
     0 ≤ (Ex.run kind T fuel).finalTime ∧ (Ex.run kind T fuel).finalTime ≤ T :=
   let h := C06_final_time_bounds Ex.consts (Ex.cfg kind) Ex.params #[#[1]] #[1/10] (1/10) T #[#[1]]
-    Ex.scratch fuel ratOps_ordered exParams_legal (by simp only [Ex.params]; norm_num) (fun _ h => h)
+    Ex.scratch fuel ratOps_ordered C06_exParams_legal (by simp only [Ex.params]; norm_num) (fun _ h => h)
     (by simp only [Ex.params]; norm_num) hT
   ⟨h.1, h.2.1⟩
 
